@@ -695,8 +695,9 @@ public:
 		if (!(c = _ref.detach())) {
 			return false;
 		}
-		if (len < 0
-		    && (len += length()) < 0) {
+		if ((len < 0
+		     && (len += length()) < 0)
+		    || ((size_t) len > (SIZE_MAX / 2) / sizeof(T))) {
 			_ref.set_instance(c);
 			return false;
 		}
